@@ -250,7 +250,7 @@ example : ([3, 1] : List Nat).Nodup ∧ ([3, 1] : List Nat).length = prod [2] :=
     untouched and no other holding changes -/
 theorem slice_add_creates_zero_sens_partial (w : World) (i rs : Nat) (sp : SliceSpec) (pos shp' : List Nat) (v : PVal)
     (hv : v ≠ .none) (hse : (w.sigs i).sens = .none) (hst : (w.sigs i).state = .arr rs)
-    (hs : Sel w rs sp pos shp') :
+    (hs : Sel w rs sp pos shp') (hnz : (w.heap.objs rs).shape ≠ []) :
     let w' := (addSlice w (.base i) sp v).1
     (w'.sigs i).sens = .arr w.heap.next ∧ (w'.sigs i).state = .arr rs ∧ (∀ j, j ≠ i → w'.sigs j = w.sigs j) ∧
     (w'.heap.objs w.heap.next).shape = (w.heap.objs rs).shape ∧
@@ -266,7 +266,7 @@ theorem slice_add_creates_zero_sens_partial (w : World) (i rs : Nat) (sp : Slice
   have e : addSlice w (.base i) sp v = addTail w4 (.base i) sp v := by
     cases v with
     | none => exact absurd rfl hv
-    | _ => simp [addSlice, getField, hse', hst', initSens, mulZero, PVal.asView, setSens, w4, o, Heap.alloc]
+    | _ => simp [addSlice, getField, hse', hst', initSens, mulZero, PVal.asView, setSens, w4, o, Heap.alloc, hnz]
   have h4s : (w4.sigs i).sens = .arr w.heap.next := by simp [w4, World.setSens]
   have hs4 : Sel w4 w.heap.next sp pos shp' := by
     refine ⟨?_, ?_, hs.nz⟩
@@ -304,6 +304,30 @@ example :
     let w := run World.empty ops
     (w.sigs 0).sens = .arr 2 ∧ (w.heap.objs 2).data = [⟨0, 0⟩, ⟨20, 0⟩, ⟨0, 0⟩, ⟨10, 0⟩] ∧
     (w.sigs 1).sens = .arr 3 ∧ (w.heap.objs 3).data = [⟨15, 0⟩, ⟨25, 0⟩] ∧ (w.heap.objs 1).data = [⟨15, 0⟩, ⟨25, 0⟩] := by
+  decide
+
+/-- rank-0 ndarrays are MUTABLE heap objects (unlike numpy scalars and Python numbers): `add_no_alias` applies to them.
+    `s0.add_sensitivity(v)` with `v = np.array(2)` (ref 0), same object to `s1`, the caller then does `v += 5`, adds it to
+    `s0` again and resets `s1` with kept allocation: `s0` holds its own object (ref 1) with 2 + 7, `s1` its own (ref 2)
+    zeroed, and the caller's array is 7 (neither stored nor zeroed) -/
+example :
+    let ops : List Op := [
+      .newSignal .none .none, .newSignal .none .none,
+      .add (.base 0) (.newArr false [] [⟨2, 0⟩]), .add (.base 1) (.ext 0),
+      .mutate (.ext 0) 5, .add (.base 0) (.ext 0), .reset (.base 1) (some true)]
+    let w := run World.empty ops
+    (w.sigs 0).sens = .arr 1 ∧ (w.heap.objs 1).data = [⟨9, 0⟩] ∧ (w.sigs 1).sens = .arr 2 ∧ (w.heap.objs 2).data = [⟨0, 0⟩] ∧
+    (w.heap.objs 0).data = [⟨7, 0⟩] ∧ (w.heap.objs 1).shape = [] := by
+  decide
+
+/-- nested basic slices are clipped at EVERY level: `x[2:5][1:4]` of 10 entries is entries 3, 4 (not 3, 4, 5) and
+    `x[3:6][5:9]` is empty -/
+example :
+    let w : World := ⟨⟨fun _ => ⟨false, [10], List.replicate 10 0⟩, 1⟩, fun _ => ⟨.arr 0, .none, false⟩, 1, []⟩
+    (getField .state w (.slice (.slice (.base 0) (.basic ⟨some 2, some 5, none⟩)) (.basic ⟨some 1, some 4, none⟩))).toOption.map (·.2)
+      = some (.view 0 [3, 4] [2]) ∧
+    (getField .state w (.slice (.slice (.base 0) (.basic ⟨some 3, some 6, none⟩)) (.basic ⟨some 5, some 9, none⟩))).toOption.map (·.2)
+      = some (.view 0 [] [0]) := by
   decide
 
 /-! ## histories
